@@ -42,7 +42,7 @@ PROP = dict(
         "BlockInfo, ValueFlow, McBlockExtra, ShardState, DNS records, wallet and abi payload decoders, VmStkTuple cell "
         "decoding): covered by the fault-injection oracles only (go.tlb.fuzz / go.tlb.one / go.abi.dec / go.proof)",
         "tl_decode_alloc / tl_decode_steps need ty.wf (every vector element consumes >= 1 byte): true of every shipped "
-        "descriptor (checked per descriptor on every run, op tl.consts); for zero-width elements the step bound is FALSE "
+        "descriptor (checked per descriptor on every run, op tld.consts); for zero-width elements the step bound is FALSE "
         "(theorem tl_steps_zero_width_elements: 4 bytes drive up to 2^32-1 iterations) — recorded as a limit, not repaired",
         "the constants of the TL bounds depend on the type (largest shipped: allocA 1186 bytes per input byte and allocB "
         "160 KiB for liteServer.partialBlockProof; stepK 115): the Go-side budget 64*|input| + 1 MiB is an oracle on "
